@@ -12,14 +12,14 @@ PROP = {
             "scripted io.Reader that hands out sampled segmentations (zero-length reads, data with EOF, segments above the read buffer), "
             "overwrites its own array after every Read and is fully pumped before the first line is read (one stratum reads concurrently); "
             "results, popped chunks and forwarded chunks vs the extracted pump model, vs the reference parse of the delivered bytes and vs a "
-            "second segmentation; every stream up to length 4 (quick) / 5 x every segmentation x sampled op paths; non-trivial = more than one non-empty read",
+            "second segmentation; a backlog stratum with MORE one-byte reads pending than the queue holds (capacity+1, +5000; reader starting when the pump waits inside addBuffer; also directly on addBuffer vs the interleaving model queue_late, oracle queue-lost-chunks); every stream up to length 4 (quick) / 5 x every segmentation x sampled op paths; non-trivial = more than one non-empty read",
     "trusted": ["Go channel bufCh is a FIFO (Go semantics); timeout/stop wake-ups of nextBuffer are outside this property (C10/C11)"],
     "assumptions": ["a read is issued with readBuf reset (as readLine/readBinary do); chunks may be empty",
                     "pump model: tunnelConnected / stopped / relay status do not change while a script is pumped"],
     "timeout": 600,
 }
 TEXT = {
-    "text": "Machine-checked proof over an executable model of buffer.go (nextBuffer/readLine/readBinary/popBuffer with the cursor arithmetic of the code): for every sequence of strict-line, junk-tolerant-line and sized-binary reads and every two segmentations of the same byte stream (empty chunks included) the results agree up to and including the first would-block or interrupt, and equal an independently written reference parse of the flat stream; every delivered line/block accounts for exactly its bytes of the stream (conservation, with the exact CR-LF unwrapping relation for junk lines); a read that the reference completes on the bytes that have arrived never waits, and later bytes never change it; popBuffer hands back exactly the unread bytes; the goroutines that pump stdin / the tunnel connection / the server output into the buffer hand on exactly the bytes the source delivered, in non-empty chunks no longer than their read buffer, so the lines and blocks do not depend on how the source segmented its reads either. A witness shows that the cursor after a Ctrl-C interrupt does depend on chunking, which is where the guarantee stops. Tied to the code by regenerated delimiter constants and by differential execution of the extracted model against the real trzszBuffer.",
+    "text": "Machine-checked proof over an executable model of buffer.go (nextBuffer/readLine/readBinary/popBuffer with the cursor arithmetic of the code): for every sequence of strict-line, junk-tolerant-line and sized-binary reads and every two segmentations of the same byte stream (empty chunks included) the results agree up to and including the first would-block or interrupt, and equal an independently written reference parse of the flat stream; every delivered line/block accounts for exactly its bytes of the stream (conservation, with the exact CR-LF unwrapping relation for junk lines); a read that the reference completes on the bytes that have arrived never waits, and later bytes never change it; popBuffer hands back exactly the unread bytes; the goroutines that pump stdin / the tunnel connection / the server output into the buffer hand on exactly the bytes the source delivered, in non-empty chunks no longer than their read buffer, so the lines and blocks do not depend on how the source segmented its reads either; the bounded queue between pump and reader, with the producer that waits (capacity and the blocking send regenerated from the source), loses and reorders nothing under any schedule, never deadlocks, and delivers every chunk. A witness shows that the cursor after a Ctrl-C interrupt does depend on chunking, which is where the guarantee stops. Tied to the code by regenerated delimiter constants and by differential execution of the extracted model against the real trzszBuffer.",
     "note": "Trusted: Coq kernel, gen translator, ExtrOcamlBasic extraction, OCaml driver, Go harness, FIFO semantics of Go channels. Not covered here: timeout and stop wake-ups (C10/C11).",
     "technique": "Coq proof (induction over chunk list and op list) + regenerated constants + extracted-model correspondence + two-chunking differential on the implementation",
 }
